@@ -31,7 +31,7 @@ _PAIRS = [(h, a, b) for h in range(len(HASHES)) for a in KCLASSES for b in KCLAS
 class C13(Machine):
     prop = "C13"
     title = "HMAC setkey replaces the key completely"
-    runs = (1500, 40000)
+    runs = (1500, 60000)
     components = {"real": ["crysp.hmac HMAC", "crysp.md MD4/MD5", "crysp.sha SHA1/SHA2", "crysp.blake Blake", "crysp.padding", "crysp.bits"],
                   "stub": []}
     rule = ("one evaluation = one simulated run: one client issues 2-6 setkey(K)/mac(M) operations on one HMAC object (key "
